@@ -187,6 +187,8 @@ pub struct World {
     pub fault_obj_mark: Cell<u32>,
     /// the running collection was requested by the interpreter through collect_cycles()
     pub coll_explicit: Cell<bool>,
+    /// (owner, action index) of the Cleanable::clean() calls in flight
+    pub cleaning: RefCell<Vec<(u32, usize)>>,
 }
 
 impl World {
@@ -249,6 +251,7 @@ impl World {
             nested_quiet: Cell::new(false),
             fault_obj_mark: Cell::new(u32::MAX),
             coll_explicit: Cell::new(false),
+            cleaning: RefCell::new(Vec::with_capacity(16)),
         }
     }
 }
